@@ -335,7 +335,7 @@ func (s *sim) genFamily(rng *simcore.RNG, f string) simcore.Op {
 			op["bid"] = []string{"prop", "rand", "rand", "own", "own", "own", "bighdr", "bighdr", "nil", "half", "badhash"}[rng.Intn(11)]
 			op["sig"] = sig()
 			op["np"] = []int{1, 2, 3, 7}[rng.Intn(4)]
-			op["data"] = []string{"garbage", "block", "oversize"}[rng.Intn(3)]
+			op["data"] = []string{"garbage", "block", "oversize", "cflag"}[rng.Intn(4)]
 			s.ownSeedMemo = rng.Intn(1 << 30)
 			op["own"] = s.ownSeedMemo
 			s.ownNpMemo = op.Int("np")
@@ -384,19 +384,41 @@ func (s *sim) genFamily(rng *simcore.RNG, f string) simcore.Op {
 		n := []int{0, 1, 1, 1, 2, 5}[rng.Intn(6)]
 		var items []string
 		for i := 0; i < n; i++ {
-			items = append(items, []string{"dve", "dve", "dve_badsig", "dve_unknown", "dve_future", "dve_same", "dve_nilvote", "dve_power", "dve_time", "lca_nil", "lca_junk", "empty", "dve_h0"}[rng.Intn(13)])
+			items = append(items, []string{"dve", "dve", "dve_badsig", "dve_unknown", "dve_future", "dve_same", "dve_nilvote", "dve_power", "dve_time", "lca_nil", "lca_junk", "lca_flag", "empty", "dve_h0"}[rng.Intn(14)])
 		}
 		op["items"] = items
 		op["eh"] = []string{"cur-1", "cur-2", "1", "cur-1"}[rng.Intn(4)]
 	case "bc":
-		k := []string{"breq", "bresp", "noblock", "sreq", "sresp"}[rng.Weighted([]int{5, 6, 3, 3, 6})]
+		k := []string{"breq", "bresp", "noblock", "sreq", "sresp"}[rng.Weighted([]int{5, 9, 3, 3, 6})]
 		op["k"] = k
 		op["h"] = pick(rng, heightSyms)
 		switch k {
 		case "bresp":
-			op["blk"] = []string{"nil", "empty", "stored", "stored", "mutated", "bigtxs", "nolastcommit"}[rng.Intn(7)]
+			op["blk"] = []string{"nil", "empty", "stored", "stored", "mutated", "bigtxs", "nolastcommit", "chain", "chain", "cflag", "cflag", "cflag"}[rng.Intn(12)]
+			if s.syncing() && rng.Bool(0.5) {
+				op["blk"] = []string{"chain", "cflag", "cflag"}[rng.Intn(3)]
+			}
+			// "chain"/"cflag": an otherwise well-formed block for the height block sync asks for
+			// (or the one after it: its LastCommit is what verifies the block before)
+			op["bh"] = []string{"next", "next", "next+1", "next+1", "next+1", "next+2"}[rng.Intn(6)]
+			if op.Str("blk") == "cflag" {
+				op["flag"] = []int{0, 0, 0, 4, 255, 1, 3, 2}[rng.Intn(8)] // 1..3 are the known flags
+				op["fa"] = rng.Bool(0.7)                                  // entry carries an address and a signature
+				op["fi"] = rng.Intn(3)                                    // entry 0, entry 1, both
+			}
 		case "sresp":
 			op["base"] = pick(rng, heightSyms)
+			if s.syncing() {
+				if s.advertiser() {
+					if rng.Bool(0.6) {
+						op["base"], op["h"] = "0", []string{"cur+1", "cur+5", "cur+5", "far"}[rng.Intn(4)]
+					}
+				} else if hv := hgt(op.Str("h"), 1); hv > 0 {
+					// several advertising peers make the pool's peer choice (Go map order) visible
+					op["h"] = "0"
+					op["base"] = "0"
+				}
+			}
 		}
 	case "ss":
 		k := []string{"snapreq", "snapresp", "chunkreq", "chunkresp"}[rng.Weighted([]int{3, 7, 4, 7})]
@@ -583,6 +605,17 @@ func (s *sim) ownParts(op simcore.Op) *types.PartSet {
 						return types.NewPartSetFromData(bz, sz)
 					}
 				}
+			}
+		}
+	case "cflag":
+		// a block for the node's next height that fits its state, except that entries of its
+		// LastCommit carry an unknown block id flag (a pure function of the spec's seed)
+		own := op.Int("own")
+		o := simcore.Op{"blk": "cflag", "flag": []int{0, 0, 0, 4, 255}[own%5], "fa": own%4 != 0, "fi": (own / 5) % 3, "seed": own}
+		b := s.chainBlock(s.storeHeight()+1, o)
+		if pb, err := b.ToProto(); err == nil {
+			if bz, err := proto.Marshal(pb); err == nil {
+				return types.NewPartSetFromData(bz, uint32(len(bz)/np+1))
 			}
 		}
 	case "oversize":
@@ -1023,6 +1056,20 @@ func (s *sim) buildHostileX(op simcore.Op, pm *peerM, dry bool) *hostileMsg {
 				if pb != nil {
 					pb.LastCommit = nil
 				}
+			case "chain", "cflag":
+				bh := s.storeHeight() + 1
+				switch op.Str("bh") {
+				case "next+1":
+					bh++
+				case "next+2":
+					bh += 2
+				}
+				b := s.chainBlock(bh, op)
+				pb, _ = b.ToProto()
+				if op.Str("blk") == "cflag" && bh-1 >= 1 {
+					f := op.Int("flag")
+					must(f < 1 || f > 3, fmt.Sprintf("commit signature entry with block id flag %d", f))
+				}
 			}
 			if pb == nil && op.Str("blk") != "nil" {
 				pb = &tmproto.Block{Header: tmproto.Header{Height: H, ChainID: s.chainID}}
@@ -1223,6 +1270,115 @@ func (s *sim) buildHostileX(op simcore.Op, pm *peerM, dry bool) *hostileMsg {
 	return hm
 }
 
+// syncing: block sync is what the node is doing (its pool asks peers for blocks).
+func (s *sim) syncing() bool { return s.mode == "fastsync" && !s.consensusRunning() }
+
+// advertiser: the peer the generator is producing a message for is the one hostile peer that
+// may advertise blocks (Next only).
+func (s *sim) advertiser() bool {
+	lp := s.livePeers(true)
+	return len(lp) > 0 && lp[0] == s.genPeer
+}
+
+func detHash(parts ...interface{}) []byte {
+	h := sha256.Sum256([]byte(fmt.Sprint(parts...)))
+	return h[:]
+}
+
+// plainBlock is the well-formed block hostile peers serve for height h: a pure function of the
+// node's state (header fields as the chain would have them, no transactions).
+func (s *sim) plainBlock(h int64, lastCommit *types.Commit, lastID types.BlockID) *types.Block {
+	st := s.conS.GetState()
+	b := types.MakeBlock(h, nil, lastCommit, nil)
+	ts := s.node.GenesisDoc().GenesisTime.Add(time.Duration(h) * time.Second)
+	b.Header.Populate(st.Version.Consensus, st.ChainID, ts, lastID, st.Validators.Hash(), st.NextValidators.Hash(),
+		types.HashConsensusParams(st.ConsensusParams), st.AppHash, st.LastResultsHash, s.valKey.PubKey().Address())
+	return b
+}
+
+// plainCommit: the commit for height h (naming block id) as a peer without the node's key can
+// write it: validator 2 signs for the block, the node's entry is absent.
+func (s *sim) plainCommit(h int64, id types.BlockID) *types.Commit {
+	ts := s.node.GenesisDoc().GenesisTime.Add(time.Duration(h)*time.Second + time.Millisecond)
+	sigs := make([]types.CommitSig, s.genVals.Size())
+	for i := range sigs {
+		sigs[i] = types.NewCommitSigAbsent()
+	}
+	v := s.val2Vote(tmproto.PrecommitType, h, 0, id, ts, s.val2Key, s.val2Key.PubKey().Address(), s.val2Idx)
+	sigs[s.val2Idx] = types.CommitSig{BlockIDFlag: types.BlockIDFlagCommit, ValidatorAddress: v.ValidatorAddress, Timestamp: ts, Signature: v.Signature}
+	return types.NewCommit(h, 0, id, sigs)
+}
+
+func (s *sim) blockIDOf(b *types.Block) types.BlockID {
+	return types.BlockID{Hash: b.Hash(), PartSetHeader: b.MakePartSet(types.BlockPartSizeBytes).Header()}
+}
+
+// servedBlock is the (unmodified) block of height h of the hostile peers' chain: the stored block
+// where the node has one, else plainBlock on top of servedBlock(h-1).
+func (s *sim) servedBlock(h int64, depth int) (*types.Block, types.BlockID) {
+	if h < 1 {
+		return nil, types.BlockID{}
+	}
+	if h <= s.storeHeight() {
+		if b := s.node.BlockStore().LoadBlock(h); b != nil {
+			return b, s.blockIDOf(b)
+		}
+	}
+	st := s.conS.GetState()
+	var lc *types.Commit
+	var lastID types.BlockID
+	switch {
+	case h <= st.InitialHeight:
+		lc = types.NewCommit(0, 0, types.BlockID{}, nil)
+	case h-1 <= s.storeHeight() && s.node.BlockStore().LoadSeenCommit(h-1) != nil:
+		lc = s.node.BlockStore().LoadSeenCommit(h - 1)
+		lastID = lc.BlockID
+	case depth < 4:
+		_, lastID = s.servedBlock(h-1, depth+1)
+		lc = s.plainCommit(h-1, lastID)
+	default:
+		hh := detHash("far-parent", h)
+		lastID = types.BlockID{Hash: hh, PartSetHeader: types.PartSetHeader{Total: 1, Hash: hh}}
+		lc = s.plainCommit(h-1, lastID)
+	}
+	b := s.plainBlock(h, lc, lastID)
+	return b, s.blockIDOf(b)
+}
+
+// chainBlock: the block a hostile peer sends for height h. "cflag": entries of its LastCommit get
+// the block id flag of the spec.
+func (s *sim) chainBlock(h int64, op simcore.Op) *types.Block {
+	if h < 1 {
+		h = 1
+	}
+	b, _ := s.servedBlock(h, 0)
+	if op.Str("blk") != "cflag" || b.LastCommit == nil || len(b.LastCommit.Signatures) == 0 {
+		return b
+	}
+	// a private copy of the commit with the hostile entries
+	lc := b.LastCommit
+	sigs := make([]types.CommitSig, len(lc.Signatures))
+	copy(sigs, lc.Signatures)
+	r := simcore.NewRNG(uint64(op.Int("seed"))*31 + 5)
+	for i := range sigs {
+		if fi := op.Int("fi"); fi != 2 && fi != i {
+			continue
+		}
+		cs := types.CommitSig{BlockIDFlag: types.BlockIDFlag(op.Int("flag")), Timestamp: sigs[s.val2Idx].Timestamp}
+		if op.Bool("fa") {
+			cs.ValidatorAddress = s.genVals.Validators[i%s.genVals.Size()].Address
+			cs.Signature = r.Bytes(64)
+			if cs.Timestamp.IsZero() {
+				cs.Timestamp = b.Time
+			}
+		}
+		sigs[i] = cs
+	}
+	nlc := types.NewCommit(lc.Height, lc.Round, lc.BlockID, sigs)
+	nb := s.plainBlock(h, nlc, b.LastBlockID)
+	return nb
+}
+
 func (s *sim) capOf(ch byte) int {
 	if ci := s.chans[ch]; ci != nil {
 		return ci.desc.RecvMessageCapacity
@@ -1288,7 +1444,7 @@ func (s *sim) buildEvidence(kind string, eh int64, c nodeCtx, r *simcore.RNG, j 
 		dve.Timestamp = blockTime.Add(time.Hour)
 	case "lca_nil":
 		return tmproto.Evidence{Sum: &tmproto.Evidence_LightClientAttackEvidence{LightClientAttackEvidence: &tmproto.LightClientAttackEvidence{CommonHeight: eh}}}, "light client attack evidence without a conflicting block"
-	case "lca_junk":
+	case "lca_junk", "lca_flag":
 		hdr := tmproto.Header{ChainID: s.chainID, Height: eh, Time: blockTime, ValidatorsHash: r.Bytes(32), ProposerAddress: addr}
 		h := r.Bytes(32)
 		lb := &tmproto.LightBlock{SignedHeader: &tmproto.SignedHeader{Header: &hdr, Commit: &tmproto.Commit{Height: eh, BlockID: tmproto.BlockID{Hash: h, PartSetHeader: tmproto.PartSetHeader{Total: 1, Hash: h}},
@@ -1296,7 +1452,13 @@ func (s *sim) buildEvidence(kind string, eh int64, c nodeCtx, r *simcore.RNG, j 
 		if vs, err := s.genVals.ToProto(); err == nil {
 			lb.ValidatorSet = vs
 		}
-		return tmproto.Evidence{Sum: &tmproto.Evidence_LightClientAttackEvidence{LightClientAttackEvidence: &tmproto.LightClientAttackEvidence{ConflictingBlock: lb, CommonHeight: eh - 1, TotalVotingPower: nodePower + val2Power, Timestamp: blockTime}}}, ""
+		lwhy := ""
+		if kind == "lca_flag" {
+			f := []tmproto.BlockIDFlag{0, 4, 255}[r.Intn(3)]
+			lb.SignedHeader.Commit.Signatures[0].BlockIdFlag = f
+			lwhy = fmt.Sprintf("commit signature entry with block id flag %d", f)
+		}
+		return tmproto.Evidence{Sum: &tmproto.Evidence_LightClientAttackEvidence{LightClientAttackEvidence: &tmproto.LightClientAttackEvidence{ConflictingBlock: lb, CommonHeight: eh - 1, TotalVotingPower: nodePower + val2Power, Timestamp: blockTime}}}, lwhy
 	case "empty":
 		return tmproto.Evidence{}, "evidence of no known kind"
 	}
